@@ -243,3 +243,19 @@ Definition demo_swap_sem (id : Z) (args : list (option val)) : option val :=
   end.
 Definition demo_swap_trace : list ev :=
   [EvSer (VI 2); EvSer (VI 3); EvSer (VI 5); EvSer (VI 8); EvSer (VI 5)].
+
+(* for i in range(4):
+       mon.write(i)
+       i = i + 2            -- Python re-binds i from the range on the next iteration; the C for-loop counts with i itself
+       mon.write(i)                                                                          *)
+Definition loopvar : pprog :=
+  {| p_pre := [ PFor ni (mk 1 TyInt true [])
+                  [ PWrite (mk 2 TyInt false [ni]); PAssign ni (mk 3 TyInt false [ni]); PWrite (mk 2 TyInt false [ni]) ] ];
+     p_main := None |}.
+Definition loopvar_sem (id : Z) (args : list (option val)) : option val :=
+  match id with
+  | 1 => Some (VI 4)
+  | 2 => match args with [Some (VI a)] => Some (VI a) | _ => None end
+  | 3 => match args with [Some (VI a)] => Some (VI (a + 2)) | _ => None end
+  | _ => None
+  end.
